@@ -22,7 +22,11 @@ import (
 //
 // The initial state is produced by the real replay: a short bidirectional run in the old mode (with crashes), i.e.
 // latest records / snapshot / journals exactly as the tool leaves them.
-func runC17ModeSwitch(r *Run, stratum string) *Violation {
+func runC17ModeSwitch(r *Run, stratum string) *Violation { return runModeSwitch(r, "C17") }
+
+// runModeSwitch: the same run reports under C17 (maintenance keeps the live resume position) or, as a stratum of C14,
+// under C14 (stopping and starting again never moves the resume point backwards).
+func runModeSwitch(r *Run, prop string) *Violation {
 	g := r.Gen()
 	modes := []string{"sync", "pipeline", "parallel"}
 	from := modes[g.Choose("from", 3)]
@@ -38,9 +42,9 @@ func runC17ModeSwitch(r *Run, stratum string) *Violation {
 	cfg := bisyncCfg(g, from)
 	o := StreamOpts{MaxItems: 4 + g.Choose("items", 14), StartDB: 0, NoUnknown: true, OnlyDB0: true, TxnHeavy: g.Choose("txnheavy", 2) == 0}
 	st := GenStream(g, o)
-	ps, _ := runBisyncSim(r, "C17", cfg, st, g.Choose("ncrashes", 3), -1)
+	ps, _ := runBisyncSim(r, prop, cfg, st, g.Choose("ncrashes", 3), -1)
 	r.ResetSteps()
-	c := &c17sim{r: r, srv: ps.srv}
+	c := &c17sim{r: r, srv: ps.srv, prop: prop}
 	ids := []string{ps.runID}
 	slots := []uint16{0}
 	// the tool pins the namespace to its mode when it creates it, before anything is replayed: the marker is there
